@@ -378,7 +378,9 @@ def _dict_flatten(data):
     def expand(key, value):
         """Expand list."""
 
-        if isinstance(value, dict):
+        if isinstance(value, dict) and not value:
+            return [(key+'>', 0)]  # Marker for an empty dict.
+        elif isinstance(value, dict):
             return [(key+'>'+k, v) for k, v in _dict_flatten(value).items()]
         else:
             return [(key, value)]
@@ -425,6 +427,10 @@ def _dict_unflatten(data):
 
             # Add value to subdict.
             tmp = tmp[part]
+
+        # Marker of an empty dict, nothing to store.
+        if parts[-1] == '' and len(parts) > 1:
+            continue
 
         # Convert numpy strings to str.
         if isinstance(value, np.ndarray) and value.dtype.type == np.str_:
